@@ -707,6 +707,12 @@ pub fn case_cli(ctx: &mut Ctx, case: &Value) {
     if to_file {
         let _ = std::fs::create_dir_all(&ctx.scratch);
         let _ = std::fs::remove_file(&outpath);
+        // "regardless of output destination": half of the time the destination already exists
+        // and holds something longer than any result (a file is replaced, not overwritten in place)
+        if nseed % 2 == 0 {
+            let _ = std::fs::write(&outpath, format!("{{\"stale\": \"{}\"}}\n", "x".repeat(200_000)));
+            ctx.stat("output_file_existed_before");
+        }
         args.extend(["-o".to_string(), outpath.clone()]);
     }
     let run = run_cfr(ctx, &args, stdin);
